@@ -148,6 +148,9 @@ int h_main(const struct h_area * a)
 
         pid = fork();
         if (pid == 0) {
+            /* a script that does not finish (a loop in the code under test)
+             * is reported as "STOP hang" by the parent */
+            alarm(getenv("H_SCRIPT_TIMEOUT") ? (unsigned)atoi(getenv("H_SCRIPT_TIMEOUT")) : 4);
             run_script(a, lines + i, j - i);
             _exit(0);
         }
